@@ -31,7 +31,7 @@ func writeManifest(verifDir string) {
 	sort.Strings(ids)
 	for _, id := range ids {
 		m, ok := propMeta[id]
-		if !ok {
+		if !ok || id[0] == 'X' {
 			reason := notApplicable[id]
 			if reason == "" {
 				reason = "check not built yet (planned in DESIGN.md section 3); nothing is claimed for this property until its check exists and is quiet on the unchanged tree"
@@ -78,7 +78,7 @@ func writeManifest(verifDir string) {
 func servesOf(pkg string) []string {
 	var out []string
 	for id, m := range propMeta {
-		if m.Pkg == pkg {
+		if m.Pkg == pkg && id[0] != 'X' {
 			out = append(out, id)
 		}
 	}
